@@ -481,3 +481,17 @@ package datalog
 //@ requires w != nil
 //@ modifies nothing
 //@ ensures res == w.rules
+
+//@ func NewWorld(opts []WorldOption) (res *World)
+//@ serves C10 C11 C13
+//@ requires forall j int :: { opts[j] } 0 <= j && j < len(opts) ==> opts[j] != nil
+//@ modifies nothing
+//@ loop 0 invariant w != nil && fresh(w) && w.facts != nil && fresh(w.facts) && len(*w.facts) == 0 && len(w.rules) == 0
+//@ ensures res != nil && fresh(res) && res.facts != nil && len(*res.facts) == 0 && len(res.rules) == 0
+
+// Assumed for every WorldOption value (the type is exported, so callers may
+// define their own): an option only changes the run limits of the world it is given.
+//@ functype WorldOption(w *World)
+//@ serves C10 C11 C13
+//@ requires w != nil
+//@ modifies w.runLimits
